@@ -20,12 +20,13 @@ import (
 
 // docRange is what a documented lambda list allows.
 type docRange struct {
-	req, opt int
-	rest     bool // &rest / &body (or a parameter written name*: "zero or more")
-	keys     []*slip.DocArg
-	restArg  *slip.DocArg
-	pos      []*slip.DocArg // required then optional
-	vague    bool           // the lambda list uses the BNF star (name*): counts are not pinned down, nothing is demanded
+	req, opt   int
+	rest       bool // &rest / &body (or a parameter written name*: "zero or more")
+	keys       []*slip.DocArg
+	restArg    *slip.DocArg
+	pos        []*slip.DocArg // required then optional
+	vague      bool           // the lambda list uses the BNF star (name*): counts are not pinned down, nothing is demanded
+	allowOther bool           // &allow-other-keys is documented
 }
 
 type rangeMutation int
@@ -55,6 +56,7 @@ func parseDoc(fd *slip.FuncDoc, m rangeMutation) *docRange {
 			mode = "aux"
 			continue
 		case slip.AmpAllowOtherKeys:
+			r.allowOther = true
 			continue
 		}
 		if strings.HasSuffix(a.Name, "*") && mode != "key" {
@@ -375,6 +377,37 @@ func findFunc(pkg, name string) *fnEntry {
 	return nil
 }
 
+// setupB: fresh scratch package as *package*, fresh symbol, fresh scope with private standard streams.
+func setupB() (scope *slip.Scope, vc *valueCtx, cleanup func()) {
+	quietStreams()
+	k := atomic.AddInt64(&caseCounter, 1)
+	vc = &valueCtx{sym: "c04s" + strconv.FormatInt(k, 10), pkg: "c04p" + strconv.FormatInt(k, 10)}
+	scratch := slip.DefPackage(vc.pkg, nil, "C04 scratch package")
+	for _, u := range slip.UserPkg.Uses {
+		scratch.Use(u)
+	}
+	scratch.Use(&slip.UserPkg) // condition classes are registered there
+	saved := slip.CurrentPackage
+	slip.CurrentPackage = scratch
+	cleanup = func() {
+		slip.CurrentPackage = saved
+		defer func() { _ = recover() }()
+		scratch.Locked = false
+		slip.RemovePackage(scratch)
+	}
+	scope = slip.NewScope()
+	scope.Let(slip.Symbol("*standard-input*"), slip.NewInputStream(strings.NewReader("1 2 3\n4 5 6\n")))
+	scope.Let(slip.Symbol("*standard-output*"), &slip.OutputStream{Writer: io.Discard})
+	scope.Let(slip.Symbol("*error-output*"), &slip.OutputStream{Writer: io.Discard})
+	scope.Let(slip.Symbol("*trace-output*"), &slip.OutputStream{Writer: io.Discard})
+	resetPlace(scope)
+	return
+}
+
+func resetPlace(scope *slip.Scope) {
+	scope.Let(slip.Symbol("c04place"), slip.List{slip.Fixnum(1), slip.Fixnum(2), slip.Fixnum(3)})
+}
+
 func execB(spec string) (res engine.Result) {
 	f := strings.Split(spec, "|")
 	if len(f) != 4 {
@@ -401,28 +434,8 @@ func execB(spec string) (res engine.Result) {
 	}
 	quietStreams()
 
-	// fresh scratch package as *package*, fresh symbol, fresh scope with private standard streams
-	k := atomic.AddInt64(&caseCounter, 1)
-	vc := &valueCtx{sym: "c04s" + strconv.FormatInt(k, 10), pkg: "c04p" + strconv.FormatInt(k, 10)}
-	scratch := slip.DefPackage(vc.pkg, nil, "C04 scratch package")
-	for _, u := range slip.UserPkg.Uses {
-		scratch.Use(u)
-	}
-	scratch.Use(&slip.UserPkg) // condition classes are registered there
-	saved := slip.CurrentPackage
-	slip.CurrentPackage = scratch
-	defer func() {
-		slip.CurrentPackage = saved
-		defer func() { _ = recover() }()
-		scratch.Locked = false
-		slip.RemovePackage(scratch)
-	}()
-	scope := slip.NewScope()
-	scope.Let(slip.Symbol("*standard-input*"), slip.NewInputStream(strings.NewReader("1 2 3\n4 5 6\n")))
-	scope.Let(slip.Symbol("*standard-output*"), &slip.OutputStream{Writer: io.Discard})
-	scope.Let(slip.Symbol("*error-output*"), &slip.OutputStream{Writer: io.Discard})
-	scope.Let(slip.Symbol("*trace-output*"), &slip.OutputStream{Writer: io.Discard})
-	scope.Let(slip.Symbol("c04place"), slip.List{slip.Fixnum(1), slip.Fixnum(2), slip.Fixnum(3)})
+	scope, vc, cleanup := setupB()
+	defer cleanup()
 
 	// build the call
 	skip := skipper(fn.fi)
